@@ -1,1 +1,176 @@
-// verification hook for h263/src/types.rs (compiled only under cfg(kani) or cfg(ruffle_rs_h263_rs_verif))
+// Hook module of h263/src/types.rs: Kani contracts of the loop-free integer kernels (complete over their domains).
+// Properties: C12 (vector arithmetic), C11 (INTRADC), C03 (half-sample split), C01 (no overflow in these kernels).
+#![allow(dead_code, unused_imports)]
+use super::*;
+
+include!("/verif/hooks/common.rs");
+include!("/verif/spec/h263_tables.rs");
+
+// HalfPel::into_lerp_parameters(v) == (floor(v/2), v odd)   for every i16
+fn h_lerp_params<S: Src>(s: &mut S) {
+    let v = s.i16();
+    let (d, half) = HalfPel(v).into_lerp_parameters();
+    let fl = (v as i32).div_euclid(2);
+    chk!(s, d as i32 == fl, "types.HalfPel.into_lerp_parameters.post_delta: integer part == floor(v/2)");
+    chk!(s, half == ((v as i32).rem_euclid(2) == 1), "types.HalfPel.into_lerp_parameters.post_half: half-sample flag == (v mod 2 == 1)");
+    s.reach();
+}
+
+// HalfPel::invert / is_mv_within_range
+fn h_invert_range<S: Src>(s: &mut S) {
+    let v = s.i16();
+    let r = s.i16();
+    s.assume(v > -32704 && v < 32704 && r > i16::MIN);
+    let inv = HalfPel(v).invert().0 as i32;
+    let want = if v > 0 { v as i32 - 64 } else if v < 0 { v as i32 + 64 } else { 0 };
+    chk!(s, inv == want, "types.HalfPel.invert.post: the other member of the MVD pair (v -/+ 64 half-sample units)");
+    let w = HalfPel(v).is_mv_within_range(HalfPel(r));
+    chk!(s, w == (-(r as i32) <= v as i32 && (v as i32) < r as i32), "types.HalfPel.is_mv_within_range.post: -range <= v < range");
+    s.reach();
+}
+
+// HalfPel::average_sum_of_mvs == Table 16 rounding of sum/8, for every i16 sum (the four-vector sums are -128..=124)
+fn h_chroma_round<S: Src>(s: &mut S) {
+    let v = s.i16();
+    let r = HalfPel(v).average_sum_of_mvs().0 as i32;
+    chk!(s, r == h263_spec::chroma_from_sum(v as i32), "types.HalfPel.average_sum_of_mvs.post: == sign(s)*(Table16[|s| mod 16] + 2*(|s| div 16))");
+    s.reach();
+}
+
+// HalfPel::median_of == the middle value, all triples
+fn h_median<S: Src>(s: &mut S) {
+    let (a, b, c) = (s.i16(), s.i16(), s.i16());
+    let m = HalfPel(a).median_of(HalfPel(b), HalfPel(c)).0 as i32;
+    chk!(s, m == h263_spec::median3(a as i32, b as i32, c as i32), "types.HalfPel.median_of.post: the middle of the three values");
+    s.reach();
+}
+
+// HalfPel + HalfPel: no overflow and exact when both operands are within +-8192 (the decode loop's invariant)
+fn h_add<S: Src>(s: &mut S) {
+    let (a, b) = (s.i16(), s.i16());
+    s.assume(a >= -8192 && a <= 8192 && b >= -8192 && b <= 8192);
+    let r = (HalfPel(a) + HalfPel(b)).0 as i32;
+    chk!(s, r == a as i32 + b as i32, "types.HalfPel.add.post: exact sum");
+    let mv = MotionVector(HalfPel(a), HalfPel(b)) + MotionVector(HalfPel(b), HalfPel(a));
+    chk!(s, (mv.0).0 as i32 == a as i32 + b as i32 && (mv.1).0 as i32 == a as i32 + b as i32, "types.MotionVector.add.post: component-wise sum");
+    s.reach();
+}
+
+// MotionVector wrappers are component-wise
+fn h_mv_wrappers<S: Src>(s: &mut S) {
+    let (a, b, c, d, e, f) = (s.i16(), s.i16(), s.i16(), s.i16(), s.i16(), s.i16());
+    let m = MotionVector(HalfPel(a), HalfPel(b));
+    let med = m.median_of(MotionVector(HalfPel(c), HalfPel(d)), MotionVector(HalfPel(e), HalfPel(f)));
+    chk!(s, (med.0).0 as i32 == h263_spec::median3(a as i32, c as i32, e as i32) && (med.1).0 as i32 == h263_spec::median3(b as i32, d as i32, f as i32),
+         "types.MotionVector.median_of.post: component-wise median");
+    let avg = m.average_sum_of_mvs();
+    chk!(s, (avg.0).0 as i32 == h263_spec::chroma_from_sum(a as i32) && (avg.1).0 as i32 == h263_spec::chroma_from_sum(b as i32),
+         "types.MotionVector.average_sum_of_mvs.post: component-wise Table 16 rounding");
+    let ((dx, hx), (dy, hy)) = m.into_lerp_parameters();
+    chk!(s, dx as i32 == (a as i32).div_euclid(2) && hx == ((a as i32).rem_euclid(2) == 1) && dy as i32 == (b as i32).div_euclid(2) && hy == ((b as i32).rem_euclid(2) == 1),
+         "types.MotionVector.into_lerp_parameters.post: component-wise (floor(v/2), v odd)");
+    let (x, y): (HalfPel, HalfPel) = m.into();
+    let back: MotionVector = (x, y).into();
+    chk!(s, x.0 == a && y.0 == b && (back.0).0 == a && (back.1).0 == b, "types.MotionVector.from_into.post: (x, y) round trip");
+    chk!(s, (MotionVector::zero().0).0 == 0 && (MotionVector::zero().1).0 == 0 && HalfPel::zero().0 == 0 && HalfPel::from_unit(a).0 == a, "types.zero.post");
+    s.reach();
+}
+
+// IntraDc::from_u8 / into_level == Table 15, all 256 codes
+fn h_intradc<S: Src>(s: &mut S) {
+    let code = s.u8();
+    match (IntraDc::from_u8(code), h263_spec::intradc_level(code)) {
+        (None, None) => {}
+        (Some(dc), Some(l)) => {
+            chk!(s, dc.into_level() as i32 == l, "types.IntraDc.into_level.post: 8*code, 255 -> 1024");
+        }
+        _ => {
+            chk!(s, false, "types.IntraDc.from_u8.post: None exactly for codes 0 and 128");
+        }
+    }
+    s.reach();
+}
+
+// MacroblockType / PictureTypeCode predicates (used by the decode-body contracts in the Verus units)
+fn h_type_preds<S: Src>(s: &mut S) {
+    let k = s.u8();
+    s.assume(k < 6);
+    let t = match k {
+        0 => MacroblockType::Inter,
+        1 => MacroblockType::InterQ,
+        2 => MacroblockType::Inter4V,
+        3 => MacroblockType::Intra,
+        4 => MacroblockType::IntraQ,
+        _ => MacroblockType::Inter4Vq,
+    };
+    chk!(s, t.is_inter() == (k == 0 || k == 1 || k == 2 || k == 5), "types.MacroblockType.is_inter.post");
+    chk!(s, t.is_intra() == (k == 3 || k == 4), "types.MacroblockType.is_intra.post");
+    chk!(s, t.has_fourvec() == (k == 2 || k == 5), "types.MacroblockType.has_fourvec.post");
+    chk!(s, t.has_quantizer() == (k == 1 || k == 4 || k == 5), "types.MacroblockType.has_quantizer.post");
+    chk!(s, PictureTypeCode::DisposablePFrame.is_disposable() && !PictureTypeCode::IFrame.is_disposable() && !PictureTypeCode::PFrame.is_disposable(),
+         "types.PictureTypeCode.is_disposable.post");
+    s.reach();
+}
+
+#[cfg(kani)]
+mod proofs {
+    use super::*;
+    #[kani::proof]
+    fn lerp_params() {
+        h_lerp_params(&mut KSrc)
+    }
+    #[kani::proof]
+    fn invert_range() {
+        h_invert_range(&mut KSrc)
+    }
+    #[kani::proof]
+    #[kani::unwind(18)]
+    fn chroma_round() {
+        h_chroma_round(&mut KSrc)
+    }
+    #[kani::proof]
+    fn median() {
+        h_median(&mut KSrc)
+    }
+    #[kani::proof]
+    fn add() {
+        h_add(&mut KSrc)
+    }
+    #[kani::proof]
+    fn mv_wrappers() {
+        h_mv_wrappers(&mut KSrc)
+    }
+    #[kani::proof]
+    fn intradc() {
+        h_intradc(&mut KSrc)
+    }
+    #[kani::proof]
+    fn type_preds() {
+        h_type_preds(&mut KSrc)
+    }
+}
+
+#[cfg(all(test, not(kani)))]
+mod replay {
+    use super::*;
+    #[test]
+    fn verif_replay() {
+        let name = std::env::var("VERIF_HARNESS").unwrap_or_default();
+        let mut r = RSrc::from_env();
+        match name.as_str() {
+            "lerp_params" => h_lerp_params(&mut r),
+            "invert_range" => h_invert_range(&mut r),
+            "chroma_round" => h_chroma_round(&mut r),
+            "median" => h_median(&mut r),
+            "add" => h_add(&mut r),
+            "mv_wrappers" => h_mv_wrappers(&mut r),
+            "intradc" => h_intradc(&mut r),
+            "type_preds" => h_type_preds(&mut r),
+            _ => {
+                println!("REPLAY-UNKNOWN harness={}", name);
+                return;
+            }
+        }
+        r.report(&name);
+    }
+}
